@@ -1,6 +1,6 @@
-//! Property C06 — correspondence / expectation run (see DESIGN.md §5, C06).
+//! Property C06 — linear-combination openings prove exactly the stated combinations.
 use crate::Ctx;
 
 pub fn run(ctx: &mut Ctx) {
-    let _ = ctx;
+    crate::generic::c06_all(ctx);
 }
